@@ -372,6 +372,144 @@ Definition eff_diff (e1 e2 : eff) : list call :=
                  | Some _ => []
                  end) e2.
 
+(** ** concurrent Loads on one Config
+
+    [Load] = Validate (no shared state) ; c.mu.Lock ; checkRevision ;
+    handleDiffs -- one handler call at a time, the handlers run with c.mu held
+    -- ; store ; Unlock.  A labelled transition system over thread ids: thread
+    [t] loads [nth t args]; the atomic steps are the points at which another
+    goroutine can observe or interfere (taking the mutex, each handler call,
+    the store + release).  A thread whose step is not enabled (the mutex is
+    held by another) does not move.
+
+    [g_order] (threads in the order in which their Load returned) and
+    [g_emitted] (calls made so far by the holder of the mutex) are ghost
+    fields: no step reads them. *)
+Inductive pc :=
+| PStart
+| PWait (cf : config)                      (* validated, about to take c.mu *)
+| PCall (cf : config) (rem : list call)    (* holds c.mu, handler calls still to make *)
+| PDone (err : bool).
+
+Record gstate := mkG {
+  g_cfg : state;
+  g_lock : option nat;
+  g_pcs : list pc;
+  g_trace : list (nat * call);
+  g_order : list nat;
+  g_emitted : list call
+}.
+
+Fixpoint upd {A : Type} (l : list A) (n : nat) (x : A) : list A :=
+  match l, n with
+  | [], _ => []
+  | _ :: l', 0%nat => x :: l'
+  | y :: l', S n' => y :: upd l' n' x
+  end.
+
+Definition finish (g : gstate) (t : nat) (s' : state) (err : bool) : gstate :=
+  mkG s' None (upd (g_pcs g) t (PDone err)) (g_trace g) (g_order g ++ [t]) [].
+
+Definition lstep (p : bool) (args : list (option config)) (g : gstate) (t : nat)
+  : option gstate :=
+  match nth_error (g_pcs g) t with
+  | Some PStart =>
+      match nth_error args t with
+      | Some (Some cf) =>
+          match validate_gen p cf with
+          | Some _ =>       (* returns before touching c.mu *)
+              Some (mkG (g_cfg g) (g_lock g) (upd (g_pcs g) t (PDone true)) (g_trace g)
+                        (g_order g ++ [t]) (g_emitted g))
+          | None =>
+              Some (mkG (g_cfg g) (g_lock g) (upd (g_pcs g) t (PWait cf)) (g_trace g)
+                        (g_order g) (g_emitted g))
+          end
+      | _ =>                (* Load(nil) *)
+          Some (mkG (g_cfg g) (g_lock g) (upd (g_pcs g) t (PDone true)) (g_trace g)
+                    (g_order g ++ [t]) (g_emitted g))
+      end
+  | Some (PWait cf) =>
+      match g_lock g with
+      | Some _ => None      (* blocked in c.mu.Lock() *)
+      | None =>
+          if check_revision (g_cfg g) cf
+          then Some (mkG (g_cfg g) (Some t)
+                         (upd (g_pcs g) t (PCall cf (handle_diffs (g_cfg g) cf)))
+                         (g_trace g) (g_order g) [])
+          else Some (finish g t (g_cfg g) true)     (* lock; stale; unlock *)
+      end
+  | Some (PCall cf (c :: rem)) =>
+      Some (mkG (g_cfg g) (g_lock g) (upd (g_pcs g) t (PCall cf rem))
+                (g_trace g ++ [(t, c)]) (g_order g) (g_emitted g ++ [c]))
+  | Some (PCall cf []) =>
+      Some (finish g t (Some (store_gen p cf)) false)
+  | _ => None
+  end.
+
+(** a schedule is the list of threads given a turn; a turn of a thread that
+    cannot move is a stutter *)
+Fixpoint lexec (p : bool) (args : list (option config)) (g : gstate) (sch : list nat) : gstate :=
+  match sch with
+  | [] => g
+  | t :: sch' =>
+      match lstep p args g t with
+      | Some g' => lexec p args g' sch'
+      | None => lexec p args g sch'
+      end
+  end.
+
+Definition ginit (s0 : state) (n : nat) : gstate := mkG s0 None (repeat PStart n) [] [] [].
+
+Definition is_done (x : pc) : bool := match x with PDone _ => true | _ => false end.
+Definition all_done (g : gstate) : bool := forallb is_done (g_pcs g).
+
+(** the loads of the threads in [order], one after the other, and their calls
+    tagged with the thread *)
+Definition arg_of (args : list (option config)) (t : nat) : option config :=
+  match nth_error args t with Some a => a | None => None end.
+
+Fixpoint seq_run (p : bool) (args : list (option config)) (s : state) (order : list nat)
+  : state * list (nat * call) :=
+  match order with
+  | [] => (s, [])
+  | t :: o =>
+      let r := seq_run p args (load_state p s (arg_of args t)) o in
+      (fst r, map (pair t) (load_calls p s (arg_of args t)) ++ snd r)
+  end.
+
+(** the schedule the harness forces on two threads: thread 0 runs until it is
+    inside its first handler call (or has returned); then thread 1 runs as far
+    as it can; then thread 0 finishes, then thread 1. *)
+Fixpoint run_until (p : bool) (args : list (option config)) (stop : gstate -> bool)
+    (fuel : nat) (g : gstate) (t : nat) : gstate :=
+  match fuel with
+  | 0%nat => g
+  | S f =>
+      if stop g then g
+      else match lstep p args g t with
+           | Some g' => run_until p args stop f g' t
+           | None => g
+           end
+  end.
+
+Definition pc_done (g : gstate) (t : nat) : bool :=
+  match nth_error (g_pcs g) t with Some (PDone _) => true | _ => false end.
+Definition pc_err (g : gstate) (t : nat) : bool :=
+  match nth_error (g_pcs g) t with Some (PDone e) => e | _ => false end.
+
+(** result: did thread 1 return while thread 0 was parked in a handler; final state *)
+Definition par_run (p : bool) (s : state) (a b : option config) : bool * gstate :=
+  let args := [a; b] in
+  let fuel := 200%nat in
+  let g1 := run_until p args (fun g => match g_trace g with [] => false | _ => true end) fuel
+                      (ginit s 2) 0 in
+  let parked := negb (pc_done g1 0) in
+  let g2 := if parked then run_until p args (fun _ => false) fuel g1 1 else g1 in
+  let early := parked && pc_done g2 1 in
+  let g3 := run_until p args (fun _ => false) fuel g2 0 in
+  let g4 := run_until p args (fun _ => false) fuel g3 1 in
+  (early, g4).
+
 End Model.
 
 Arguments target : clear implicits.
@@ -385,3 +523,5 @@ Arguments entry : clear implicits.
 Arguments eff : clear implicits.
 Arguments mkTarget {O}.
 Arguments mkConfig {R O X}.
+Arguments pc : clear implicits.
+Arguments gstate : clear implicits.
